@@ -18,7 +18,9 @@ const rule = "cases: 2-4 real transactions (writers with read-modify-write, blin
 	"(keys 10..70, slot length 2/4/8), each in its own goroutine and parked by its txk.Script gate at the lock-record calls (GetStructs/SetStructs/Delete), the page-lock calls, the first validation read and the " +
 	"install (registry UpdateNoLocks all-or-nothing); a generated schedule releases one parked transaction at a time, then the rest is drained round-robin. Every step is replayed on Model L (same schedule): park point, result, " +
 	"tracked items with versionInDB, isLockOwner flags, fetched/updated page sets and the whole lock-record table after the step are diffed, then the final cold scan. Oracle: exact serializability of the committed " +
-	"transactions (all serial orders; op results, values read, final scan). distinct = canonical case hash; non-trivial = at least two transactions were inside Commit at the same time"
+	"transactions (all serial orders; op results, values read, final scan). Directed corpus besides the write skew: one hot item — a transaction that read it and then removed it / updated it / wrote elsewhere / only read it " +
+	"(writer and ForReading) or blindly removed it meets a node conflict (at the validation or at the node lock) after another writer committed an update, an increment or a remove of that item, for values in the node and in a separate segment " +
+	"(the latter oracle only); the same family is generated with random park depth and a third writer. distinct = canonical case hash; non-trivial = at least two transactions were inside Commit at the same time"
 
 // the store of DESIGN.md C02
 var keys = []int{10, 20, 30, 40, 50, 60, 70}
@@ -110,7 +112,79 @@ func genProg(p *hx.Prng, t int, slot int) occx.Prog {
 	return pr
 }
 
+// ---- one hot item: a transaction that READ item x (and then removed it / updated it / only read it) meets a node
+// conflict after another writer committed an update or a remove of x; the merge replay must compare x's version with
+// the versionInDB of the single tracker entry, whatever its kind (get, update, remove) ----
+
+const hotKey = 30
+
+// readers of x: what T1 does with the hot item after reading it
+var hotFirst = []struct {
+	name string
+	prog occx.Prog
+}{
+	{"read-remove", occx.Prog{Ops: []occx.Op{{Kind: "get", Key: hotKey}, {Kind: "rm", Key: hotKey}}}},
+	{"read-update", occx.Prog{Ops: []occx.Op{{Kind: "updf", Key: hotKey, Src: hotKey, Delta: -7}}}},
+	{"read-write-elsewhere", occx.Prog{Ops: []occx.Op{{Kind: "updf", Key: 60, Src: hotKey, Delta: -7}}}},
+	{"read-only-writer", occx.Prog{Ops: []occx.Op{{Kind: "get", Key: hotKey}}}},
+	{"read-only-reader", occx.Prog{Reader: true, Ops: []occx.Op{{Kind: "get", Key: hotKey}, {Kind: "get", Key: 50}}}},
+	{"blind-remove", occx.Prog{Ops: []occx.Op{{Kind: "rm", Key: hotKey}}}},
+}
+
+// writers of x: what T2 commits in between
+var hotSecond = []struct {
+	name string
+	prog occx.Prog
+}{
+	{"update", occx.Prog{Ops: []occx.Op{{Kind: "upd", Key: hotKey, Val: 2000}}}},
+	{"increment", occx.Prog{Ops: []occx.Op{{Kind: "updf", Key: hotKey, Src: hotKey, Delta: 1}}}},
+	{"remove", occx.Prog{Ops: []occx.Op{{Kind: "rm", Key: hotKey}}}},
+}
+
+// hotCase: T0 does its work and `ahead` more steps of its Commit, T1 runs to its end, then T0 goes on (round-robin drain).
+func hotCase(first, second int, segment bool, ahead int) occx.Case {
+	pl := "node"
+	if segment {
+		pl = "segment"
+	}
+	c := occx.Case{Label: fmt.Sprintf("hot-%s-vs-%s-%s-%d", hotFirst[first].name, hotSecond[second].name, pl, ahead),
+		Slot: 8, Keys: keys, Val: 100, Segment: segment,
+		Progs: []occx.Prog{hotFirst[first].prog, hotSecond[second].prog}}
+	for i := 0; i <= ahead; i++ {
+		c.Sched = append(c.Sched, 0)
+	}
+	for i := 0; i < 14; i++ {
+		c.Sched = append(c.Sched, 1)
+	}
+	return c
+}
+
+func hotCorpus() []occx.Case {
+	var out []occx.Case
+	for _, seg := range []bool{false, true} {
+		for f := range hotFirst {
+			for s := range hotSecond {
+				out = append(out, hotCase(f, s, seg, 0))
+			}
+		}
+	}
+	// the same conflict met at the node lock (T0 already holds its lock records) instead of at the validation
+	out = append(out, hotCase(0, 1, false, 3), hotCase(1, 1, false, 3), hotCase(0, 0, false, 4))
+	return out
+}
+
 func genCase(p *hx.Prng, n int) occx.Case {
+	if p.Chance(1, 6) {
+		c := hotCase(p.Intn(len(hotFirst)), p.Intn(len(hotSecond)), p.Chance(1, 3), p.Intn(7))
+		c.Label = fmt.Sprintf("gen%d-%s", n, c.Label)
+		if p.Chance(1, 2) { // a third party on the same leaf
+			c.Progs = append(c.Progs, genProg(p, 2, 8))
+			for i := 0; i < 6; i++ {
+				c.Sched = append(c.Sched, p.Intn(3))
+			}
+		}
+		return c
+	}
 	slots := []int{2, 4, 4, 8}
 	c := occx.Case{Label: fmt.Sprintf("gen%d", n), Slot: slots[p.Intn(len(slots))], Keys: keys, Val: 100}
 	nt := 2 + p.Intn(2)
@@ -228,7 +302,11 @@ func judge(s *hx.Session, c occx.Case, o *occx.Outcome) {
 	if o.Panicked {
 		for _, p := range o.Procs {
 			if p.Panic != "" {
-				s.Fail("C02/panic", "Commit panicked", p.Panic+" "+o.Summary())
+				sig := "C02/panic"
+				if strings.Contains(p.Panic, "nil pointer") && len(p.Trace) > 2 {
+					sig = "C02/panic-in-merge-replay-stale-cursor" // the defect of finding C05-F1, met by a C02 workload
+				}
+				s.Fail(sig, "Commit panicked", p.Panic+" "+o.Summary())
 			}
 		}
 		return
@@ -260,6 +338,11 @@ func run(o hx.RunOpts) error {
 	s.Rep.Extra = map[string]any{"refetch_keeps_lock_ids": kt}
 	if err := runCase(s, writeSkew()); err != nil {
 		return err
+	}
+	for _, c := range hotCorpus() {
+		if err := runCase(s, c); err != nil {
+			return err
+		}
 	}
 	n := o.N(400, 2500)
 	for i := 0; i < n; i++ {
